@@ -14,7 +14,6 @@ import (
 	"github.com/inbucket/inbucket/v3/pkg/message"
 	"github.com/inbucket/inbucket/v3/pkg/metric"
 	"github.com/inbucket/inbucket/v3/pkg/policy"
-	"github.com/inbucket/inbucket/v3/pkg/verifhook"
 	"github.com/rs/zerolog/log"
 )
 
@@ -177,7 +176,6 @@ func (s *Server) serve(ctx context.Context) {
 			}
 		} else {
 			tempDelay = 0
-			verifhook.Point("smtp.serve.accepted", "")
 			// Count the session before it starts, so Drain cannot miss it.
 			s.wg.Add(1)
 			go func(id int, conn net.Conn) {
